@@ -25,11 +25,13 @@ variable {F : Type} [Scalar F]
 /-- The four registration type codes: REG_NGP 0x9211, REG2 0x9201, REG3 0x9202, REG_ERR 0x9210. -/
 def isRegType (t : Nat) : Bool := t == 37393 || t == 37377 || t == 37378 || t == 37392
 
-/-- An event that is neither a housekeeping tick, nor a registration datagram, nor a fault injection. -/
+/-- An event that is neither a housekeeping tick, nor a registration datagram, nor a fault injection, nor a
+reload (`apply_connection_changes` may remove the very link the chain is about, or shift its index). -/
 def bystander : Ev → Bool
   | .hk _ => false
   | .failNext _ => false
   | .failBind _ => false
+  | .reload _ _ _ => false
   | .uplink _ _ data =>
     match Codec.getPacketTypeS data with
     | some t => !isRegType t
@@ -68,6 +70,7 @@ theorem bystander_reg (s : Sys F) (e : Ev) (h : bystander e = true) : (step s e)
   | setCfg cfg => rfl
   | crit d => rfl
   | stamp idx weak ld ccb cct => rfl
+  | reload now addrs outs => cases h
   | syncTimeout => rfl
   | uplink now cid data =>
     show (handleUplinkPacket s cid data now).1.reg = s.reg
@@ -274,7 +277,7 @@ theorem hk_broadcast (s : Sys F) (now : Nat) (hidle : Hk.RegIdle s.reg) (hb : s.
       rw [hdrv.1]
     rw [h6]
     -- the final links are stage 6's; their conn ids are those of `s.links`
-    have hids := Hk.step_ids s (.hk now)
+    have hids := Hk.step_ids s (.hk now) rfl
     have hfin : (step s (.hk now)).1.links = (Hk.hkP6 s now).1 := (Hk.hk_eq s now).1
     rw [hfin, h6l, List.map_map] at hids
     have hk' : ((Hk.hkP5 s now).1.map (·.core.connId))[k]? = some l.core.connId := by
@@ -287,5 +290,8 @@ theorem hk_broadcast (s : Sys F) (now : Nat) (hidle : Hk.RegIdle s.reg) (hb : s.
     exact ⟨x, List.mem_of_getElem? hx, by rw [hxid]⟩
   · rw [(Hk.hk_eq s now).2.1]; exact hdrv.2.1
   · rw [(Hk.hk_eq s now).2.1]; exact hdrv.2.2
+
+theorem bystander_noReload {e : Ev} (h : bystander e = true) : e.isReload = false := by
+  cases e <;> first | rfl | cases h
 
 end Srtla.Audit2B
